@@ -5,12 +5,15 @@ LEAN_MODULES = ["GT.Props.C06"]
 ASSUMPTIONS = ["float64 rounding outside the theorems; inputs with condition number <= 1e4"]
 
 
-def case_condition(R, D, diag, sorted_b):
-    label = f"condition_on/R{R}/D{D}/diag{int(diag)}/sorted{int(sorted_b)}"
+def case_condition(R, D, diag, sorted_b, hist=False):
+    label = f"condition_on/R{R}/D{D}/diag{int(diag)}/sorted{int(sorted_b)}" + ("/hist" if hist else "")
     def fn(m):
         rng = gen.rng_path(m.seed, label)
         fails = []
         p = mk_pdf(m, rng, R, D, diag=diag)
+        if hist:
+            m.condition_on(p.reg, gen.subset(rng, D, proper=True))
+            mutate_pdf(m, rng, p, diag=diag)
         b = gen.subset(rng, D, proper=True, ordered=sorted_b)
         a = np.array([d for d in range(D) if d not in list(b)])
         params = dict(R=R, D=D, b=[int(i) for i in b])
@@ -64,4 +67,5 @@ def cases(seed, tier):
     for i, (R, D) in enumerate(grid):
         out.append(case_condition(R, D, bool(i % 2), False))
         out.append(case_condition(R, D, bool((i + 1) % 2), True))
+    out.append(case_condition(2, 3, False, False, hist=True)); out.append(case_condition(3, 2, True, True, hist=True))
     return seeded(out, seed)
